@@ -6,7 +6,7 @@
            execution with at least [mu s] real steps ends converged. *)
 From Coq Require Import ZArith List Bool Arith Lia.
 From Verif Require Import DispatchActs HeartbeatDispatch JoinRetryDispatch JoinDispatch SyncDispatch CommitDispatch
-  C06_Converge C06_conv_lib.
+  C06_Converge C06_conv_lib C06_conv_step C06_conv_final C06_conv_progress.
 Import ListNotations.
 Local Open Scope nat_scope.
 
@@ -291,4 +291,67 @@ Proof.
   apply andb_true_iff in Hi. destruct Hi as [Hwc _]. unfold wf_c in Hwc. rewrite S in Hwc. simpl in Hwc.
   destruct (c_ents (s_c s)) eqn:Ee; [inversion Hmem|]. simpl in Hwc.
   repeat (apply andb_true_iff in Hwc; destruct Hwc as [Hwc ?]). discriminate.
+Qed.
+
+(* ------------------------------------------------------------------------------------------ *)
+(* Part 3: the per-step facts (proof/C06_conv_final.v, C06_conv_progress.v) instantiate Part 2      *)
+
+Lemma step_inv_holds : step_inv_P.
+Proof. intros s l s' Hi Hs. exact (proj1 (step_facts s l s' Hi Hs)). Qed.
+
+Lemma step_mu_holds : step_mu_P.
+Proof.
+  intros s l s' Hi Hs. pose proof (proj2 (step_facts s l s' Hi Hs)) as H. unfold mu_behaves in H.
+  split; intros N; rewrite N in H; exact H.
+Qed.
+
+Lemma progress_holds : progress_P.
+Proof. intros s Hi Hc. exact (progress_all s Hi Hc). Qed.
+
+(* every quiet step preserves the invariant; a step that is not a no-op heartbeat / commit exchange strictly
+   decreases the variant, a no-op does not increase it; and while the state is not converged a real step is enabled
+   (after at most one no-op that consumes a silent reply still on the wire) *)
+Theorem quiet_progress : forall s, inv_b s = true ->
+  (forall l s', step s l = Some s' ->
+     inv_b s' = true /\ (noop_b s l = false -> mu s' < mu s) /\ (noop_b s l = true -> mu s' <= mu s))
+  /\ (converged_b s = false ->
+      exists l s', step s l = Some s' /\
+        (noop_b s l = false \/ (exists l2 s2, step s' l2 = Some s2 /\ noop_b s' l2 = false))).
+Proof.
+  intros s Hi. split.
+  - intros l s' Hs. split; [exact (step_inv_holds s l s' Hi Hs) | exact (step_mu_holds s l s' Hi Hs)].
+  - intros Hc. exact (progress_holds s Hi Hc).
+Qed.
+
+(* every quiet execution from a state satisfying the invariant contains at most [mu s] real steps; one that contains
+   that many ends converged: every live member in the coordinator's generation, heartbeat task running *)
+Theorem quiet_converges : forall s ls s', inv_b s = true -> run s ls = Some s' ->
+  inv_b s' = true /\ count_real s ls <= mu s /\
+  (mu s <= count_real s ls ->
+     converged_b s' = true /\
+     forall m, In m (s_ms s') -> m_live m = true ->
+       m_gen m = c_gen (s_c s') /\ m_hb m = true /\ m_rejoin m = false /\ m_ph m = PIdle
+       /\ In (m_id m) (ids (c_ents (s_c s'))) /\ c_st (s_c s') = CStable).
+Proof.
+  intros s ls s' Hi Hr.
+  destruct (run_bound step_inv_holds step_mu_holds ls s s' Hi Hr) as [Hi' Hb].
+  destruct (quiet_converges_generic step_inv_holds step_mu_holds progress_holds s ls s' Hi Hr) as [A B].
+  split; [exact Hi'|]. split; [exact A|]. intros Hge. specialize (B Hge). split; [exact B|].
+  intros m Hin L. exact (converged_members s' Hi' B m Hin L).
+Qed.
+
+(* a not yet converged state is never the end: the execution can be extended by real steps until it is converged *)
+Theorem quiet_schedule_exists : forall n s, inv_b s = true -> mu s <= n ->
+  exists ls s', run s ls = Some s' /\ converged_b s' = true /\ inv_b s' = true.
+Proof.
+  induction n as [|n IH]; intros s Hi Hm.
+  - exists [], s. split; [reflexivity|]. split; [apply (mu_zero_converged step_inv_holds step_mu_holds progress_holds s Hi); lia | exact Hi].
+  - destruct (converged_b s) eqn:C; [exists [], s; auto|].
+    destruct (progress_holds s Hi C) as (l & s1 & E & [N | (l2 & s2 & E2 & N2)]).
+    + pose proof (step_inv_holds s l s1 Hi E) as Hi1. destruct (step_mu_holds s l s1 Hi E) as [A _]. specialize (A N).
+      destruct (IH s1 Hi1 ltac:(lia)) as (ls & s' & R & Cv & Iv). exists (l :: ls), s'. cbn [run]. rewrite E. auto.
+    + pose proof (step_inv_holds s l s1 Hi E) as Hi1. pose proof (step_inv_holds s1 l2 s2 Hi1 E2) as Hi2.
+      destruct (step_mu_holds s l s1 Hi E) as [A B]. destruct (step_mu_holds s1 l2 s2 Hi1 E2) as [A2 _]. specialize (A2 N2).
+      assert (mu s1 <= mu s) by (destruct (noop_b s l); [apply B; reflexivity | specialize (A eq_refl); lia]).
+      destruct (IH s2 Hi2 ltac:(lia)) as (ls & s' & R & Cv & Iv). exists (l :: l2 :: ls), s'. cbn [run]. rewrite E, E2. auto.
 Qed.
